@@ -101,10 +101,7 @@ get_for_topic = Contract(
     target=W + "_get_subscriptions_for_topic", types=dict(TYPES, webpush_repo="WebPushRepository"), raises={},
     calls={"webpush_repo.get_notification_preferences_for_topic": get_prefs, "webpush_repo.get_subscriptions": get_subs,
            "has_access": has_access_call},
-    ensures=[("lemma:access-list-holds-entitled-users", f"all(any({ENTU} for p in ghost('prefs')) for u in access)"),
-             ("lemma:contributed-list-holds-entitled-users", f"all(any({ENTU} for p in ghost('prefs')) for u in contributed)"),
-             ("lemma:specific-list-holds-entitled-users", f"all(any({ENTU} for p in ghost('prefs')) for u in specific)"),
-             ("lemma:queried-ids-are-entitled-users", f"all(any({ENTU} for p in ghost('prefs')) for u in ghost('ids'))"),
+    ensures=[             ("lemma:queried-ids-are-entitled-users", f"all(any({ENTU} for p in ghost('prefs')) for u in ghost('ids'))"),
              ("every-returned-subscription-belongs-to-an-entitled-user",
               f"all(any({ENT} for p in ghost('prefs')) for s in result)"),
              ("the-preferences-were-fetched-for-this-topic", "ghost('topic_arg') is topic"),
